@@ -65,9 +65,11 @@ def confirm(wt, x):
 
 
 def run_checks(patch, props):
-    d = "/tmp/mrepo-campaign-" + os.path.basename(VM)
-    shutil.rmtree(d, ignore_errors=True)
-    os.makedirs(d)
+    # a fresh directory name per mutant: cargo's freshness check is mtime based, and files copied
+    # back from /repo carry old mtimes - with a reused path it would keep parts of the previous
+    # mutant's build
+    import tempfile
+    d = tempfile.mkdtemp(prefix="mrepo-campaign-" + os.path.basename(VM) + "-", dir="/tmp")
     for y in ("src", "hannibal-derive"):
         shutil.copytree(f"/repo/{y}", f"{d}/{y}")
     for y in ("Cargo.toml", "Cargo.lock"):
